@@ -162,7 +162,7 @@ func genFault(g G, kind string) Fault {
 	default:
 		f.AtByte = g.Int(0, 1500, "atbyte")
 	}
-	if kind != "for-each-ref" && g.Chance(1, 6, "stdinclose") {
+	if kind != "for-each-ref" && g.Chance(1, 4, "stdinclose") {
 		f.StdinLines = g.Int(0, 6, "stdinlines")
 		f.AtByte = -1
 	}
@@ -192,7 +192,7 @@ func genC10Base(g G, small bool) (*World, Invocation, []RefOpt) {
 				cs.Parents = []string{prev}
 			}
 			prev = w.Add(NewObject(KCommit, EncodeCommit(cs))).ID
-			if i%3 == 0 && g.Bool("chainref") || i == n-1 {
+			if g.Bool("chainref") || i == n-1 {
 				name := fmt.Sprintf("refs/heads/chain/%04d", i)
 				if !refConflicts(refSet(w), name) {
 					w.Refs = append(w.Refs, Ref{Name: name, OID: prev})
@@ -245,7 +245,8 @@ func invalidArgs(g G, class string) []string {
 
 func checkC10(c *Ctx, rt *rapid.T) {
 	g := G{rt}
-	mode := g.Pick(20, "mode")
+	// an unbiased choice of mode (rapid's own integer draws favour small values)
+	mode := modeTable[int(splitmix64(rapid.Uint64().Draw(rt, "mode")^0x1234)%uint64(len(modeTable)))]
 	switch {
 	case mode < 11: // random faults, engine A (sometimes mirrored on engine B)
 		w, inv, refopts := genC10Base(g, false)
@@ -408,6 +409,42 @@ func checkC10(c *Ctx, rt *rapid.T) {
 		if v := judgeC10(c, sc); v != nil {
 			c.Fail(rt, sc, v.Class, v.Detail)
 		}
+	case mode == 21: // many pending requests and an early death of a streaming command
+		w := &World{Layout: "loose", Head: "ref: refs/heads/chain/0000"}
+		n := g.Int(150, 420, "chainlen")
+		var prev string
+		for i := 0; i < n; i++ {
+			cs := CommitSpec{Tree: EmptyTreeID, Author: ident("A", int64(1300000000+i), "+0000"), Committer: ident("C", int64(1300000000+i), "+0000"), Message: fmt.Sprintf("chain %d\n", i)}
+			if prev != "" {
+				cs.Parents = []string{prev}
+			}
+			prev = w.Add(NewObject(KCommit, EncodeCommit(cs))).ID
+			w.Refs = append(w.Refs, Ref{Name: fmt.Sprintf("refs/heads/chain/%04d", i), OID: prev})
+		}
+		fixed := FormatArgs(g, "")
+		if g.Chance(1, 4, "progress") {
+			fixed = append(fixed, "--progress")
+		}
+		inv := Invocation{Args: fixed, Cwd: "top"}
+		pl := Plan{Peers: map[string]*PeerPlan{}}
+		for _, k := range peerKinds {
+			pl.Peers[k] = &PeerPlan{PipeCap: -1}
+		}
+		k := g.PickStr([]string{"rev-list", "batch", "batch-check", "rev-list", "batch"}, "earlypeer")
+		f := dieKinds[g.Pick(len(dieKinds), "earlydie")]
+		f.StdinLines = -1
+		if g.Bool("bystdin") {
+			f.StdinLines = g.PickInt([]int{0, 1, 2, 50, 99, 101}, "earlystdin")
+			f.AtByte = -1
+		} else {
+			f.AtByte = g.PickInt([]int{0, 1, 41, 410, 4100}, "earlybyte")
+		}
+		pl.Peers[k].Faults = []Fault{f}
+		pl.Peers[k].PipeCap = g.PickInt([]int{-1, 0, 4096, 65536}, "earlycap")
+		sc := &Scenario{Format: 1, Property: "C10", Engine: "A", World: w, Inv: inv, Plan: pl, Params: c10Params{Mode: "fault"}}
+		if v := judgeC10(c, sc); v != nil {
+			c.Fail(rt, sc, v.Class, v.Detail)
+		}
 	default: // enumeration of every fault point of a small world
 		w, inv, refopts := genC10Base(g, true)
 		sc := &Scenario{Format: 1, Property: "C10", Engine: "A", World: w, Inv: inv, Plan: Plan{Peers: map[string]*PeerPlan{}},
@@ -429,6 +466,26 @@ func checkC10(c *Ctx, rt *rapid.T) {
 		}
 	}
 }
+
+// modeTable: 45 % random faults, 8 % invalid input, 9 % missing objects,
+// 25 % one-shot command failures, 5 % shallow / absent, 8 % enumeration, 8 % many
+// pending requests with an early death.
+var modeTable = func() []int {
+	var t []int
+	add := func(mode, n int) {
+		for i := 0; i < n; i++ {
+			t = append(t, mode)
+		}
+	}
+	add(0, 45)
+	add(11, 8)
+	add(13, 9)
+	add(15, 25)
+	add(17, 5)
+	add(19, 8)
+	add(21, 8)
+	return t
+}()
 
 type enumResult struct {
 	sc *Scenario
